@@ -40,6 +40,25 @@ def suciOp : Handler
     | _, _ => badOp
   | _ => badOp
 
+/-- `nassuci <imsi> <mncLen>`: the NAS builders carry the identity's `Len ‖ Buffer` unchanged -/
+def nasSuciOp : Handler
+  | [imsi, mncLen] =>
+    match hexArg imsi, intArg mncLen with
+    | some imsi, some mncLen =>
+      let two (r : Option Bytes) : String := match r with
+        | some b => "ok " ++ toHex b ++ " " ++ toHex b
+        | none => "undef"
+      let spec :=
+        match splitImsi imsi mncLen with
+        | some (mcc, mnc, msin) => two (Spec.Identity.encodeSuci (Spec.Identity.nullSchemeSuci mcc mnc msin))
+        | none => "undef"
+      let m := match Model.Suci.encodeSuci imsi mncLen with
+        | .ok b => two (some b)
+        | .error e => e.tag
+      (m, spec)
+    | _, _ => badOp
+  | _ => badOp
+
 def plmnSpec (imsi : Bytes) (mncLen : Int) (copies : Nat) : String :=
   match splitImsi (Model.Suci.trimImsiPrefix imsi) mncLen with
   | some (mcc, mnc, _) =>
@@ -77,6 +96,7 @@ end Suci
 open Suci in
 def suciHandlers : List (String × Handler) := [
   ("suci", suciOp),
+  ("nassuci", nasSuciOp),
   ("ngplmn", ngPlmnOp),
   ("ngsetup", ngSetupOp)
 ]
